@@ -551,6 +551,26 @@ func (nopHandler) HandleXMPP(xmlstream.TokenReadEncoder, *xml.StartElement) erro
 	return nil
 }
 
+// streamErrReader remembers the first error other than io.EOF that reading
+// from the stream produced (a stream error, an illegal stream level token, a
+// syntax error…) and keeps returning it: such an error ends the session even
+// if the handler that triggered it does not pass it on.
+type streamErrReader struct {
+	r   xml.TokenReader
+	err error
+}
+
+func (r *streamErrReader) Token() (xml.Token, error) {
+	if r.err != nil {
+		return nil, r.err
+	}
+	tok, err := r.r.Token()
+	if err != nil && err != io.EOF {
+		r.err = err
+	}
+	return tok, err
+}
+
 type iqResponder struct {
 	r xml.TokenReader
 	c chan xmlstream.TokenReadCloser
@@ -570,7 +590,7 @@ func handleInputStream(s *Session, handler Handler) (err error) {
 	rc := s.TokenReader()
 	/* #nosec */
 	defer rc.Close()
-	r := intstream.Reader(rc, s.ws)
+	r := &streamErrReader{r: intstream.Reader(rc, s.ws)}
 
 	tok, err := r.Token()
 	if err != nil {
@@ -658,6 +678,11 @@ func handleInputStream(s *Session, handler Handler) (err error) {
 	// stream, which only a read from the stream itself can report.
 	if err := handler.HandleXMPP(rw, &start); err != nil && err != io.EOF {
 		return err
+	}
+
+	// The handler may have swallowed an error of the stream itself.
+	if r.err != nil {
+		return r.err
 	}
 
 	iqNeedsResp := typ == string(stanza.GetIQ) || typ == string(stanza.SetIQ)
